@@ -4,8 +4,43 @@ import Mathlib.Algebra.Order.AbsoluteValue.Basic
 import Mathlib.Tactic.Ring
 import Mathlib.Tactic.Linarith
 
-/-! Facts about the rational EMA of Model/Ema.lean (scales/varz.py `Ema`). -/
+/-! Facts about the rational EMA and the clock of Model/Ema.lean (scales/varz.py `Ema`, `MonoClock`). -/
+namespace Scales.MonoClock
+
+/-- `Sample()` is `max(_last, now)` -/
+theorem sample_eq_max (last now : Rat) : sample last now = max last now := by
+  unfold sample
+  split
+  · rename_i h; rw [max_eq_right (le_of_lt (sub_pos.1 h))]
+  · rename_i h; rw [max_eq_left (sub_nonpos.1 (not_lt.1 h))]
+
+/-- the sampled time never decreases, whatever the wall clock reads -/
+theorem le_sample (last now : Rat) : last ≤ sample last now := by
+  rw [sample_eq_max]; exact le_max_left _ _
+
+theorem now_le_sample (last now : Rat) : now ≤ sample last now := by
+  rw [sample_eq_max]; exact le_max_right _ _
+
+/-- successive sampled times: each is at least `last`, and they never decrease -/
+theorem samples_sorted (readings : List Rat) : ∀ last : Rat,
+    (∀ t ∈ samples last readings, last ≤ t) ∧ (samples last readings).Pairwise (· ≤ ·) := by
+  induction readings with
+  | nil => intro last; simp [samples]
+  | cons now rest ih =>
+    intro last
+    obtain ⟨h1, h2⟩ := ih (sample last now)
+    simp only [samples, List.mem_cons, forall_eq_or_imp, List.pairwise_cons]
+    exact ⟨⟨le_sample _ _, fun t ht => le_trans (le_sample _ _) (h1 t ht)⟩, h1, h2⟩
+
+end Scales.MonoClock
+
 namespace Scales.Ema
+
+/-- a weight `exp` can return for a time delta that is not negative is a weight: it lies in [0, 1] -/
+theorem weightLegal_unit {dt w : Rat} (h : weightLegal dt w = true) (hdt : 0 ≤ dt) : 0 ≤ w ∧ w ≤ 1 := by
+  unfold weightLegal at h
+  simp only [Bool.and_eq_true, Bool.or_eq_true, Bool.not_eq_true', decide_eq_true_eq, decide_eq_false_iff_not] at h
+  exact ⟨h.1.1, h.1.2.resolve_left (fun hn => hn hdt)⟩
 
 /-- the distance to the sample shrinks by the factor `w` -/
 theorem step_sub (w v x : Rat) : step w v x - x = (v - x) * w := by
